@@ -59,8 +59,13 @@ def run(case):
     kind = case["kind"]
     dt = np.dtype(case["dtype"])
     v = np.array(case["vals"]).astype(dt)
+    if case.get("swap") and dt.kind in "iu" and dt.itemsize > 1:
+        v = v.astype(dt.newbyteorder())          # the same values in non-native byte order (what reading a big-endian file gives)
+        tags_swap = ["byteswapped"]
+    else:
+        tags_swap = []
     L = len(v)
-    tags = ["k:" + kind, "kind:" + dt.kind, "v:" + case.get("vclass", "small")]
+    tags = ["k:" + kind, "kind:" + dt.kind, "v:" + case.get("vclass", "small")] + tags_swap
     r = RLA.from_array(v.copy())
     dv = np.asarray(r.to_array())         # the decoded operand is the oracle's input (-0.0 may have merged into 0.0)
     before = snapshot(r)
@@ -423,6 +428,13 @@ def sweep(tier):
                     yield {"kind": "rl", "dtype": "int64", "vals": v, "dtype2": "int64", "vals2": w, "uf": uf, "align": "independent", "vclass": "small"}
 
 
+def _with_swap(rng, c):
+    """one case in eight with integer elements gets them in non-native byte order"""
+    if isinstance(c, dict) and "dtype" in c and np.dtype(c["dtype"]).kind in "iu" and rng.random() < 0.12:
+        c["swap"] = True
+    return c
+
+
 def random_case(rng, tier):
     if rng.random() < 0.08:
         from .. import rlprog
@@ -433,7 +445,8 @@ def random_case(rng, tier):
         if c["via"] == "cmp":
             c.update(cmp=rng.choice(["gt", "lt", "eq", "ne", "ge"]), thr=rng.choice(v.tolist()), name=rng.choice(["any", "all", "np.any", "np.all", "sum", "np.sum", "mean", "max"]))
         return c
-    return gen_case(rng, tier)
+    c = gen_case(rng, tier)
+    return _with_swap(rng, c) if c.get("kind") in ("unary", "rl", "pyscalar", "npscalar", "red", "concat", "rl_derived") else c
 
 
 _run_plain = run
